@@ -212,6 +212,33 @@ class SchemaAnchors:
                 q = model.resolve_name(SCHEMA, n.func.id)
                 if q in model.functions:
                     self.encoder = model.functions[q]
+        # the function handed the description may be a field-formatting helper that passes it on to the encoder proper
+        def has_sub(fi_: FuncInfo) -> bool:
+            return any(isinstance(n, ast.Call) and isinstance(n.func, ast.Attribute) and n.func.attr == "sub" for n in ast.walk(fi_.node))
+        for _hop in range(3):
+            if self.encoder is None or has_sub(self.encoder):
+                break
+            enc0 = self.encoder
+            pidx = None
+            for n in ast.walk(s.node if _hop == 0 else ast.Module(body=[], type_ignores=[])):
+                pass
+            nxt = None
+            desc_params = set()
+            # which parameter of enc0 receives the description? (by position at the call in __str__ / by name `description`)
+            for n in ast.walk(s.node):
+                if isinstance(n, ast.Call) and isinstance(n.func, ast.Name) and model.resolve_name(SCHEMA, n.func.id) == enc0.qualname:
+                    for i, a in enumerate(n.args):
+                        if isinstance(a, ast.Attribute) and a.attr == "description" and i < len(enc0.params()):
+                            desc_params.add(enc0.params()[i])
+            desc_params |= {p_ for p_ in enc0.params() if "desc" in p_}
+            for n in ast.walk(enc0.node):
+                if isinstance(n, ast.Call) and isinstance(n.func, ast.Name) and any(isinstance(a, ast.Name) and a.id in desc_params for a in n.args):
+                    q = model.resolve_name(SCHEMA, n.func.id)
+                    if q in model.functions and q != enc0.qualname:
+                        nxt = model.functions[q]
+            if nxt is None:
+                break
+            self.encoder = nxt
         # decoder: module function applied in from_string to the value of the DESC group (m.group("desc") / m["desc"],
         # directly or through a local)
         from .rx.sites import group_accesses
